@@ -435,8 +435,9 @@ def run_check(prop: str, tier: str, seed: int, module: Any) -> int:
         'wall_s': round(time.time() - t0, 2),
         'violations': len(violations),
     }
-    edir = VERIF / 'evidence'
-    edir.mkdir(exist_ok=True)
+    # a run against a scratch copy (VERIF_REPO, used by tools/try_seed.py) never overwrites the evidence of /repo
+    edir = VERIF / 'evidence' if str(REPO) == '/repo' else VERIF / 'replays' / 'scratch-evidence'
+    edir.mkdir(parents=True, exist_ok=True)
     (edir / f'{prop}.json').write_text(json.dumps(ev, indent=1, default=str))
     log(f'obligations={len(obligations)} discharged={len(discharged)} evaluations={ctx.evaluations} distinct_nontrivial={len(ctx.distinct)} disagreements={len(ctx.disagreements)} oracle_failures={len(ctx.failures)} wall={ev["wall_s"]}s')
     if violations:
